@@ -104,3 +104,33 @@ LEVEL_TEXT.update({
 })
 for _p in ["C03", "C08"]:
     NOT_APPLICABLE.pop(_p, None)
+
+LEVEL_TEXT.update({
+ "C04": dict(text="Theorems C04_no_dangling (every reachable state of the concurrent model, any number of threads, any programs, every schedule: every indexed key has its blob "
+                  "with the committed bytes), C04_commit_window_protected, C04_never_deletes_protected (no step of any thread removes a referenced or protected blob), "
+                  "C04_C07_quiescent_exact, by the thread-modular invariant ConcInv. K6/K7: small concurrent programs run on the real library under schedules chosen by the "
+                  "model (threads parked at the `verif` scheduling points), every step's next point, lock bits, cas listing, index and intents compared; plus model-free "
+                  "random exploration of the same programs; oracle: after every step every indexed key's blob file exists.",
+             note=BASE_NOTE + "Atomicity of the code between two scheduling points, parking_lot's mutual exclusion and the thread scheduler (any interleaving of the "
+                              "hook-delimited steps) are assumptions of the model; K6 covers small programs only. Bytes of WAL/snapshot are not in this model."),
+ "C05": dict(text="Theorems C05_read_never_fails (no read of any reachable state ever reports a missing blob) and C05_read_returns_whole_indexed_content_partial (a returned "
+                  "content is the complete content of an item that was the key's value at one of the read's own lookup steps; the retry after a failed open answers from the "
+                  "key's current state under the read lock). K6 with readers parked between lookup and open; oracle: each read result is a value the key held during the call.",
+             note=BASE_NOTE + "Partial: full linearizability (real-time order of all writes, reads inside their call interval as a theorem) is not proved; the read-interval "
+                              "clause is decided by the K6 oracle on explored schedules. remove/remove_range are documented as not strictly atomic."),
+ "C09": dict(text="Theorems C09_powerloss_any_instant (one operation cut after ANY number of calls, ANY set of files losing their unsynced bytes: the next open succeeds "
+                  "with the old or the new map), C09_at_rest_nothing_is_lost, C09_powerloss_history (histories with power losses during operations and during recovery), "
+                  "and the Async counterexample. K3: power-loss images built from the REAL recorded call trace (shim log with data) for every cut point x every subset "
+                  "of files with unsynced bytes, recovered by the real library and compared with the model's `lose` images and with the C03 oracle.",
+             note=BASE_NOTE + "Power-loss model as worded in the property (unsynced bytes lost, directory operations persist in order). The history theorem treats bytes that "
+                              "survived a power loss as durable afterwards (`settle`); the variant without it is proved only when earlier losses hit all segment files "
+                              "(C09_powerloss_partial in proofs/PowerLossHist.v)."),
+ "C15": dict(text="Theorems C15_lock_order (every code path of the model acquires I < S < W, W never held across a step), C15_deadlock_free (every reachable state with "
+                  "unfinished threads has an enabled thread), C15_progress (any schedule makes at most total_work steps), C15_calls_complete. K6/K7: the real lock bits at "
+                  "every scheduling point equal the model's, every worker reaches its next point within the time-out under every explored schedule (a lock taken without a "
+                  "scheduling point shows up as a hang with the schedule as replay).",
+             note=BASE_NOTE + "The model sees lock acquisitions only at the `verif` scheduling points; an acquisition added elsewhere is caught by K6 (hang / lock-bit mismatch), "
+                              "not by the theorem. Writer-preference fairness of parking_lot's RwLock plays no role because no thread waits inside a lock in the model."),
+})
+for _p in ["C04", "C05", "C09", "C15"]:
+    NOT_APPLICABLE.pop(_p, None)
